@@ -27,12 +27,16 @@ package casket
 //@   loop 3 invariant inOuter() && storOK() && 1 <= #i2 && #i2 <= len(sblocks) && has(storages, #i2 - 1) && i == #i2 - 1
 //@   loop 4 invariant inOuter() && storOK()
 
-//@ unit lifecycle props=C16,C08 filter=`casket\.startWithListenerFds$|casket\.startWithListenerFds\$1$|Instance\)\.ShutdownCallbacks$`
+//@ unit lifecycle frames=on props=C16,C08 filter=`casket\.startWithListenerFds$|casket\.startWithListenerFds\$1$|Instance\)\.ShutdownCallbacks$`
+//@ func checkFdlimit
+//@ func IsLoopback
+//@   pure
 //@ ghost nShutdown int
 //@ ghost nFinal int
 //@ ghost shutdownDone int
 
 //@ func (*Instance).ShutdownCallbacks
+//@   modifies ghost:nFinal, ghost:nShutdown
 //@   requires i != nil && nShutdown == 0 && nFinal == 0
 //@   at call dynamic#1 assert [shutdown_before_final] nFinal == 0
 //@   at call dynamic#1 do nShutdown = nShutdown + 1
@@ -63,7 +67,7 @@ package casket
 //@   loop 1 invariant 0 <= #i && #i <= len(instances) && instances == old(instances) && forall(k, 0, #i, instances[k] != inst) && held(instancesMu) == old(held(instancesMu)) + 1
 //@ func startWithListenerFds
 //@   requires inst != nil && nFirst == 0 && nStartup == 0 && serversStarted == 0
-//@   modifies G:github.com/tmpim/casket.instances, E:*github.com/tmpim/casket.Instance
+//@   modifies G:github.com/tmpim/casket.instances, E:*github.com/tmpim/casket.Instance, ghost:nFirst, ghost:nStartup, ghost:serversStarted, G:github.com/tmpim/casket.started
 //@   ensures [failed_start_leaves_no_instance] result != nil ==> len(instances) == old(len(instances))
 //@   ensures [successful_start_registers_instance] result == nil ==> len(instances) == old(len(instances)) + 1
 //@   ensures [lock_balance] held(instancesMu) == old(held(instancesMu))
@@ -77,7 +81,7 @@ package casket
 //@   loop 1 invariant 0 <= #i && nFirst == #i && nStartup == 0 && serversStarted == 0
 //@   loop 2 invariant 0 <= #i && #i <= len(inst.OnStartup) && nStartup == #i && serversStarted == 0
 
-//@ unit start_servers props=C08 filter=`casket\.startServers$`
+//@ unit start_servers frames=on props=C08 filter=`casket\.startServers$`
 //@ ghost opened int
 //@ // built-in: goroutines launched (each server's Serve and ServePacket run in their own)
 //@ ghost spawned int
@@ -111,7 +115,7 @@ package casket
 //@   ensures [nothing_serves_unless_all_bound] result != nil ==> spawned == old(spawned)
 //@   loop 1 invariant 0 <= #i && #i <= len(serverList) && opened == old(opened) + 2*#i && inst != nil && spawned == old(spawned)
 
-//@ unit restart props=C16,C08 filter=`casket\.Instance\)\.Restart$|casket\.Instance\)\.Restart\$1$`
+//@ unit restart frames=on props=C16,C08 filter=`casket\.Instance\)\.Restart$|casket\.Instance\)\.Restart\$1$`
 //@ // reload: the old instance's restart callbacks first; a failure (an error OR a panic, at any stage) runs the
 //@ // restart-failed callbacks once each, stops and shuts down nothing of the old instance, and is REPORTED to the caller
 //@ // together with the old instance (the signal handler restores the event hooks only on a reported failure);
@@ -188,7 +192,7 @@ package casket
 //@ // parseWindowsCommand (reached only when runtime.GOOS is "windows") is not covered: its part[:len(part)-1] needs an
 //@ // invariant over a string range loop that the engine cannot state yet.
 
-//@ unit signal_reload props=C08 filter=`casket\.trapSignalsPosix\$1$`
+//@ unit signal_reload frames=on props=C08 filter=`casket\.trapSignalsPosix\$1$`
 //@ // SIGUSR1 reload: "a failed attempt leaves the registered event hooks as they were". hooksPurged is 1 from the moment
 //@ // the handler purges the hook registry until it either restores the saved copy or the restart succeeds (the new
 //@ // configuration has registered its own); the handler is back at the top of its signal loop only with hooksPurged == 0.
@@ -209,16 +213,22 @@ package casket
 //@   ensures (result1 == nil ==> hooksPurged == 0) && (result1 != nil ==> hooksPurged == old(hooksPurged))
 //@ func getCurrentCasketfile
 //@   ensures result2 == nil ==> result1 != nil
+//@ // other branches of the signal loop (frame-empty, explicit assumptions; their own guarantees are in other units)
+//@ func EmitEvent
+//@ func Stop
+//@ func Upgrade
+//@ func executeShutdownCallbacks
 //@ func trapSignalsPosix$1
 //@   requires hooksPurged == 0
 //@   modifies ghost:hooksPurged, ghost:savedHooks
 //@   loop 1 invariant [hooks_intact_between_signals] hooksPurged == 0
 
-//@ unit instance_stop props=C16,C08 filter=`casket\.Instance\)\.Stop$`
+//@ unit instance_stop frames=on props=C16,C08 filter=`casket\.Instance\)\.Stop$`
 //@ // Stop stops every server, takes the instance off the list under the lock, and reports no error (a server that fails
 //@ // to stop is logged): Restart treats an error from it as a failed reload although the successor is already live.
 //@ func (*Instance).Stop
 //@   requires i != nil
+//@   modifies G:github.com/tmpim/casket.instances, E:*github.com/tmpim/casket.Instance, ghost:held
 //@   ensures [stop_reports_no_error] result == nil
 //@   ensures [lock_balance] held(instancesMu) == old(held(instancesMu))
 
@@ -251,7 +261,7 @@ package casket
 //@   loop 1 invariant forall(k, 0, #i, !strings.HasSuffix(host, privateTLDs[k]))
 //@   loop 1 invariant (hasPortIn(addr) ==> host == hostIn(addr)) && (!hasPortIn(addr) ==> host == strings.Trim(addr, "[]"))
 
-//@ unit process_shutdown props=C16 filter=`casket\.allShutdownCallbacks$`
+//@ unit process_shutdown frames=on props=C16 filter=`casket\.allShutdownCallbacks$`
 //@ // "process shutdown runs every live instance's shutdown callbacks": every instance on the list (started instances are
 //@ // on it whether or not they serve anything) has ShutdownCallbacks called on it exactly once, under the list's lock.
 //@ ghostfn ran
@@ -266,7 +276,7 @@ package casket
 //@   ensures [lock_balance] held(instancesMu) == old(held(instancesMu))
 //@   loop 1 invariant 0 <= #i && #i <= len(instances) && forall(k, 0, #i, ran(instances[k]) == old(ran(instances[k])) + 1) && forall(k, #i, len(instances), ran(instances[k]) == old(ran(instances[k])))
 
-//@ unit shutdown_once props=C16 filter=`casket\.executeShutdownCallbacks$`
+//@ unit shutdown_once frames=on props=C16 filter=`casket\.executeShutdownCallbacks$`
 //@ // "exactly once however many signals arrive (repeated, concurrent)": interleavings are outside what contracts on
 //@ // sequential code decide, so the guarantee is delegated to the primitive that gives it - the shutdown event and the
 //@ // instances' callbacks run ONLY inside the function handed to the process-wide sync.Once, never directly from
